@@ -40,6 +40,7 @@ structure SMapOK (m : SMap) : Prop where
   I_while : ∀ c b, m.I (.while c b) = .while c (m.S b)
   I_doWhile : ∀ b c, m.I (.doWhile b c) = .doWhile (m.S b) c
   I_for : ∀ i t u b, m.I (.for i t u b) = .for i t u (m.S b)
+  I_forOf : ∀ k x e b, m.I (.forOf k x e b) = .forOf k x e (m.S b)
   I_try : ∀ b hc p cb hf fb, m.I (.try b hc p cb hf fb) = .try (m.L b) hc p (m.L cb) hf (m.L fb)
   I_labeled : ∀ l s, m.I (.labeled l s) = .labeled l (m.S s)
   I_switch : ∀ e cs, m.I (.switch e cs) = .switch e (m.C cs)
@@ -58,6 +59,7 @@ def SMap.T (m : SMap) : Task → Task
   | .whileLoop c b l V => .whileLoop c (m.S b) l V
   | .doLoop b c l V => .doLoop (m.S b) c l V
   | .forLoop per t u b l V => .forLoop per t u (m.S b) l V
+  | .forOfLoop k x arr i b l V => .forOfLoop k x arr i (m.S b) l V
 
 /-! ### consequences of `SMapOK` -/
 section
@@ -244,6 +246,24 @@ theorem evalFor_sim (hE : ∀ e env st, Res.le (e1 e env st) (e2 e env st))
   · apply bindSt_mono (evalDeclrs_mono hE _ _ _ _); intro _; exact hT _ _ _ _
   · apply bindSt_mono (evalDeclrs_mono hE _ _ _ _); intro _; exact hT _ _ _ _
 
+theorem evalForOf_sim (hE : ∀ e env st, Res.le (e1 e env st) (e2 e env st))
+    (k : DeclKind) (x : Name) (e : Expr) (bd : Stmt) (l : List Name)
+    (hT : ∀ arr i V env st, Res.le (t1 (.forOfLoop k x arr i (a.S bd) l V) env st)
+                                    (t2 (.forOfLoop k x arr i (b.S bd) l V) env st))
+    (env : Env) (st : St) :
+    Res.le (evalForOf e1 t1 k x e (a.S bd) l env st) (evalForOf e2 t2 k x e (b.S bd) l env st) := by
+  unfold evalForOf
+  apply bindVal_mono (hE _ _ _); intro v st1
+  split
+  · split
+    · split
+      · exact hT _ _ _ _ _
+      · exact Res.le_refl _
+    · exact Res.le_refl _
+  · exact Res.le_refl _
+  · exact Res.le_refl _
+  · exact Res.le_refl _
+
 theorem stepStmt_sim (ha : SMapOK a) (hb : SMapOK b) (hE : ∀ e env st, Res.le (e1 e env st) (e2 e env st))
     (hS : ∀ s l env st, Res.le (s1 (a.S s) l env st) (s2 (b.S s) l env st))
     (hT : ∀ t env st, Res.le (t1 (a.T t) env st) (t2 (b.T t) env st))
@@ -271,6 +291,9 @@ theorem stepStmt_sim (ha : SMapOK a) (hb : SMapOK b) (hE : ∀ e env st, Res.le 
   | «for» i t u bd =>
     rw [ha.I_for, hb.I_for]; simp only [stepStmt]
     exact evalFor_sim hE i t u bd l (fun per V env st => hT (.forLoop per t u bd l V) env st) env st
+  | forOf k x e bd =>
+    rw [ha.I_forOf, hb.I_forOf]; simp only [stepStmt]
+    exact evalForOf_sim hE k x e bd l (fun arr i V env st => hT (.forOfLoop k x arr i bd l V) env st) env st
   | brk l' => rw [ha.I_brk, hb.I_brk]; exact Res.le_refl _
   | cont l' => rw [ha.I_cont, hb.I_cont]; exact Res.le_refl _
   | ret e =>
@@ -357,6 +380,13 @@ theorem step_sim (ha : SMapOK a) (hb : SMapOK b) (P : Prog) (hT : ∀ t env st, 
       split
       · exact Res.le_refl _
       · exact hbody _ _
+  | forOfLoop k x arr i bd l V =>
+    simp only [SMap.T, step, stepForOf]
+    split
+    · exact Res.le_refl _
+    · split
+      · exact afterBody_mono (hS _ _ _ _) (fun V' st2 => hT (.forOfLoop k x arr (i + 1) bd l V') env st2)
+      · exact Res.le_refl _
 
 end
 
@@ -371,6 +401,7 @@ def lblFree : Stmt → Bool
   | .while _ _ => false
   | .doWhile _ _ => false
   | .for _ _ _ _ => false
+  | .forOf _ _ _ _ => false
   | .labeled _ _ => false
   | _ => true
 
@@ -386,6 +417,7 @@ def wI : Stmt → Stmt
   | .while c b => .while c (wrapIf b (wI b))
   | .doWhile b c => .doWhile (wrapIf b (wI b)) c
   | .for i t u b => .for i t u (wrapIf b (wI b))
+  | .forOf k x e b => .forOf k x e (wrapIf b (wI b))
   | .try b hc p cb hf fb => .try (wL b) hc p (wL cb) hf (wL fb)
   | .labeled l s => .labeled l (wrapIf s (wI s))
   | .switch e cs => .switch e (wC cs)
@@ -440,6 +472,9 @@ theorem wI_var : ∀ s, varNamesS (wI s) = varNamesS s
     | none => simp [wI, varNamesS, this]
     | expr e => simp [wI, varNamesS, this]
     | decl k ds => cases k <;> simp [wI, varNamesS, this]
+  | .forOf k _ _ b => by
+    have := wS_var' b
+    cases k <;> simp [wI, varNamesS, this]
   | .brk _ => by simp [wI]
   | .cont _ => by simp [wI]
   | .ret _ => by simp [wI]
@@ -477,6 +512,7 @@ theorem wMap_ok : SMapOK wMap where
   I_while := by intros; simp [wMap, wI, wS]
   I_doWhile := by intros; simp [wMap, wI, wS]
   I_for := by intros; simp [wMap, wI, wS]
+  I_forOf := by intros; simp [wMap, wI, wS]
   I_try := by intros; simp [wMap, wI]
   I_labeled := by intros; simp [wMap, wI, wS]
   I_switch := by intros; simp [wMap, wI]
@@ -514,6 +550,7 @@ theorem stepStmt_lbl (e : RecE) (r : RecS) (t : RecT) (s : Stmt) (h : lblFree s 
   | «while» c b => simp [lblFree] at h
   | doWhile b c => simp [lblFree] at h
   | «for» i t u b => simp [lblFree] at h
+  | forOf k x e b => simp [lblFree] at h
   | labeled l' s => simp [lblFree] at h
   | _ => rfl
 
@@ -589,6 +626,7 @@ theorem wrap_le (P : Prog) : ∀ (n : Nat) (t : Task) (env : Env) (st : St),
     | whileLoop c b l V => exact key (.whileLoop c b l V) env st
     | doLoop b c l V => exact key (.doLoop b c l V) env st
     | forLoop per test upd b l V => exact key (.forLoop per test upd b l V) env st
+    | forOfLoop k x arr i b l V => exact key (.forOfLoop k x arr i b l V) env st
 
 /-! ### direction 2: the original is below the wrapped program with twice the fuel -/
 
@@ -629,6 +667,7 @@ theorem le_wrap (P : Prog) : ∀ (n : Nat) (t : Task) (env : Env) (st : St),
     | whileLoop c b l V => exact key (.whileLoop c b l V) env st
     | doLoop b c l V => exact key (.doLoop b c l V) env st
     | forLoop per test upd b l V => exact key (.forLoop per test upd b l V) env st
+    | forOfLoop k x arr i b l V => exact key (.forOfLoop k x arr i b l V) env st
 
 /-! ### scripts -/
 
